@@ -60,6 +60,11 @@ GEN = [
 ]
 
 
+REC_CONSTS = dict(User=["u1", "u2", "u3"], MaxTx=5, MaxBatch=3, MaxCall=3, MaxDep=3, MaxFx=6, MaxExt=8, MaxEv=9, Amt=[1, 2], Fee=[1, 2],
+                  BaseFees=[0, 1, 2], MinFees=[1, 3], InitBal=6, KB=1, KC=2)
+RECORDER = specs.make_recorder(module="Outgoing", mcmodule="OutgoingMC", pkg="outgoing", name="outgoing3", consts=REC_CONSTS, overrides=None,
+                               harness=harness("eth", REC_CONSTS), reset_op=RESET, tiers=["quick", "thorough", "dev"], walks=6, walklen=80, procs=8)
+
 ASSUMPTIONS = [
     "token = FX (bridge token registered at keeper level, module pre-funded with liquidity); other token kinds are exercised by Erc20/Tolerated specs",
     "the external chain is simulated by the harness with FxBridgeLogic.sol's rules (block.number < timeout, batch nonce increasing per token, bridge-call nonce once); its state travels in a harness-private key of the module store",
@@ -72,7 +77,7 @@ ASSUMPTIONS = [
 def outgoing(pid):
     def run(work, args):
         kw = dict(pid=pid, module="Outgoing", mcmodule="OutgoingMC", pkg="outgoing", formulas=FORMULAS[pid],
-                  mc_cfgs=MC, gen_cfgs=GEN, reset_op=RESET, level_note="", design_ref="5/C04-C06", assumptions=ASSUMPTIONS)
+                  mc_cfgs=MC, gen_cfgs=GEN, reset_op=RESET, level_note="", design_ref="5/C04-C06", assumptions=ASSUMPTIONS, recorder=RECORDER)
         rp = getattr(args, "replay", None)
         if pid != "C06" or (rp and "Oracle" not in json.load(open(rp)).get("consts", {})):
             return graph_property(work, args, **kw)
